@@ -253,7 +253,7 @@ impl Property for C19 {
         "C19"
     }
     fn rule(&self) -> &'static str {
-        "sweep = each of the 4x5x6 = 120 problem-type codes x 3 fixed contents; random = code chosen by the tape x abstract QP (<=5 variables, <=4 constraints, lower-triangle Q entries incl. diagonal, default and non-default b0 incl. explicit 0, constant, two-sided constraints with finite / at-threshold / beyond-threshold sides, bounds likewise, variable types for M and G, names) rendered by an independent writer (comments !/#/%, blank lines, trailing text, capitalisation) | one injected error (garbage in any numeric token, bad type code, bad sense) or truncation after every line; \
+        "sweep = each of the 4x5x6 = 120 problem-type codes x 3 fixed contents; random = code chosen by the tape x abstract QP (<=5 variables, <=4 constraints, lower-triangle Q entries incl. diagonal, default and non-default b0 incl. explicit 0, constant, two-sided constraints with finite / at-threshold / beyond-threshold sides, bounds likewise, variable types for M and G, names incl. exponent-like fragments, decimal sides, matrices scaled by 2^-60 / 2^40) rendered by an independent writer (comments !/#/% also between entry lines, blank lines, trailing text, capitalisation, TAB-separated entries, CRLF) | one injected error (garbage in any numeric token, bad type code, bad sense) or truncation after every line; \
          oracle = the abstract model, error location = physical line recorded by the writer; non-trivial = diagonal and off-diagonal entries together, or a constraint with two finite sides, or an error case; distinct = sha256(file text, mode)"
     }
     fn required_labels(&self) -> Vec<String> {
